@@ -53,6 +53,26 @@ META["C12"] = {
   "design_ref": "DESIGN.md §3 C12",
   "note": "Over the reals with exp uninterpreted (positivity and exp(u) <= 1 for u <= 0 assumed); index arrays modelled as integers; fresh arcs and a positive density bound are preconditions taken from the statement.",
   "technique": TECH}
+META["C14"] = {
+  "text": "KNNSupervisedOPF.predict and UnsupervisedOPF.predict are under contract. The k-nearest scan carries the same buffer / slot-map / bubble invariants as arc creation with 'offered = ALL training samples below j' (no sample is skipped), the density loop carries a ghost partial-sum chain, the choice loop tracks the first maximiser of min(cost(neighbour), density). At the end of every iteration of the query loop the statement is asserted for the query just processed (k distinct training samples with their distances, ascending, nobody outside closer than the k-th; density from those k distances with the stored constant and range; label and cluster of a maximiser) and discharged, for every fitted model satisfying `fitted`, every query and k.",
+  "design_ref": "DESIGN.md §3 C14",
+  "note": "In-line assertion per query (not a postcondition over the returned list); exp uninterpreted; index arrays as integers; `fitted` precondition established by C12/C16 contracts.",
+  "technique": TECH}
+META["C16"] = {
+  "text": "KNNSupervisedOPF._learn / fit and UnsupervisedOPF._best_minimum_cut / _normalized_cut / fit are under contract together with everything they call (create_arcs, calculate_pdf, both _clustering routines, predict, destroy_arcs, KNNSubgraph construction): call-site preconditions of all of them are obligations. The selection loops carry ghost sequences of the criterion values; the postconditions state that subgraph.best_k is the smallest candidate attaining the best value among those evaluated (cuts: a prefix of min_k..max_k that stops early only after a cut of exactly 0) and that the final graph / clustering is built with it; definedness of the local best_k is an obligation. All discharged.",
+  "design_ref": "DESIGN.md §3 C16",
+  "note": "opf_accuracy assumed to return a real in [0,1] (its body is C20); unsupervised selection verified for duplicate-free data (note N3); k ranges within 1..n-1.",
+  "technique": TECH}
+META["C04"] = {
+  "text": "KNN half proved: postcondition of KNNSupervisedOPF.fit says every training sample carries its own label, for all data, ties, max_k (via the forced-prototype invariant of _clustering). Supervised half: reduced by C01-C03 to the cited zero-resubstitution theorem of Papa-Falcao-Suzuki; decided here by a bounded run-time contract over tie-free weight orders (exhaustive for n = 4 in the thorough tier) and generic data with every qualifying metric.",
+  "design_ref": "DESIGN.md §3 C04",
+  "note": "Level `other`: proved / cited / bounded parts are itemised in the evidence; bounded results are never counted as discharged.",
+  "technique": TECH}
+META["C09"] = {
+  "text": "Proved: frame obligations of all predict methods (KNN-supervised and unsupervised predict modify no model state at all; supervised predict only relevance flags, which it never reads), the per-sample characterisations C03/C14 for an arbitrary loop position, and the absence of global state / RNG reads. The residual (position-independent tie-breaking) is covered by a bounded relational run-time contract: same sample alone, at every batch position, with duplicates, and after earlier calls, on all four model kinds.",
+  "design_ref": "DESIGN.md §3 C09",
+  "note": "Level `other`: a relational lockstep proof was not built; the deductive part is the frame + functional characterisation.",
+  "technique": TECH}
 ALL = ["C%02d" % i for i in range(1, 21)]
 NOT_APPLICABLE = []
 def _na():
